@@ -77,6 +77,10 @@ pub enum C02Case {
         #[serde(default)]
         rebuild_sig: bool,
     },
+    /// structured, length-changing edit: a new index entry (and its data) is appended to the main
+    /// header behind everything that was there, or an existing entry's data is left alone and
+    /// il/dl are raised; `mode` 0 plain, 1 in-place digest fix-up, 2 signature header rebuilt
+    Appended { base: u8, tag: u32, #[serde(with = "crate::engine::hexser")] data: Vec<u8>, mode: u8 },
 }
 
 #[derive(Debug)]
@@ -203,6 +207,29 @@ fn header_and_payload_signed(bytes: &[u8], k: usize) -> Option<Vec<u8>> {
     reencode_sig(bytes, e)
 }
 
+/// append one STRING entry to the main header: index record after the last record, data after the
+/// last store byte (i.e. behind the region trailer), il and dl raised; nothing else is touched
+fn append_entry(bytes: &[u8], tag: u32, data: &[u8]) -> Option<Vec<u8>> {
+    let seg = fmt::decode(bytes).ok()?;
+    let h = &seg.hdr;
+    let mut out = bytes[..h.start].to_vec();
+    out.extend_from_slice(&bytes[h.start..h.start + 8]);
+    out.extend_from_slice(&(h.il + 1).to_be_bytes());
+    let mut payload_data = data.to_vec();
+    payload_data.retain(|b| *b != 0);
+    payload_data.push(0);
+    out.extend_from_slice(&(h.dl + payload_data.len() as u32).to_be_bytes());
+    out.extend_from_slice(&bytes[h.start + 16..h.store_start]);
+    out.extend_from_slice(&tag.to_be_bytes());
+    out.extend_from_slice(&fmt::T_STRING.to_be_bytes());
+    out.extend_from_slice(&h.dl.to_be_bytes());
+    out.extend_from_slice(&1u32.to_be_bytes());
+    out.extend_from_slice(&bytes[h.store_start..h.end]);
+    out.extend_from_slice(&payload_data);
+    out.extend_from_slice(&bytes[seg.payload_start..]);
+    Some(out)
+}
+
 /// rebuild the signature header: signatures kept verbatim, digests replaced by (or added as)
 /// correct MD5 / SHA1 / SHA256 values of the current header and payload
 fn rebuild_sig_header(bytes: &[u8]) -> Option<Vec<u8>> {
@@ -313,13 +340,13 @@ impl Property for C02 {
         C02 { bases }
     }
     fn rule(&self) -> String {
-        format!("domain A: hand-encoded packages whose signature header carries any subset of OPENPGP/RSA/DSA/PGP(header+payload) tags, each with right or wrong data type, 0..3 OpenPGP entries (valid base64 of unique blobs, malformed base64, empty), right/wrong digests, verified with a recording verifier scripted with every accept/reject pattern and five different error kinds for rejections; domain B: {} packages built and signed by the library (as emitted, reduced to the legacy header-only tag, and re-signed with a legacy header+payload tag) with EVERY single bit of main header and payload flipped, plain, with attacker-side in-place recomputation of all digests, and with the unsigned signature header rebuilt around the kept signatures (fresh MD5/SHA1/SHA256 added), plus random multi-byte edits, verified with the real pgp verifier. Non-trivial: A = verifier consulted or result Ok; B = the mutant parses and differs from the original; distinct by hash of the package bytes.", self.bases.len())
+        format!("domain A: hand-encoded packages whose signature header carries any subset of OPENPGP/RSA/DSA/PGP(header+payload) tags, each with right or wrong data type, 0..3 OpenPGP entries (valid base64 of unique blobs, malformed base64, empty), right/wrong digests, verified with a recording verifier scripted with every accept/reject pattern and five different error kinds for rejections; domain B: {} packages built and signed by the library (as emitted, reduced to the legacy header-only tag, and re-signed with a legacy header+payload tag) with EVERY single bit of main header and payload flipped, plain, with attacker-side in-place recomputation of all digests, and with the unsigned signature header rebuilt around the kept signatures (fresh MD5/SHA1/SHA256 added), plus random multi-byte edits and structured length-changing edits (a new index entry and its data appended behind the existing header content), verified with the real pgp verifier. Non-trivial: A = verifier consulted or result Ok; B = the mutant parses and differs from the original; distinct by hash of the package bytes.", self.bases.len())
     }
     fn assumptions(&self) -> Vec<String> {
         vec!["the converse (a correctly signed package must verify) is not part of the statement and not asserted here (C10 covers it)".into()]
     }
     fn required_labels(&self, _t: Tier) -> Vec<&'static str> {
-        vec!["base-legacy-tag-only", "base-header+payload-tag", "recording", "returned-ok", "verifier-consulted", "openpgp-zero-entries", "openpgp-wrong-type", "legacy-pgp-tag", "bitflip-differs", "bitflip-fixup", "bitflip-sig-rebuilt", "all-accepted-but-digest-wrong"]
+        vec!["base-legacy-tag-only", "base-header+payload-tag", "recording", "returned-ok", "verifier-consulted", "openpgp-zero-entries", "openpgp-wrong-type", "legacy-pgp-tag", "bitflip-differs", "bitflip-fixup", "bitflip-sig-rebuilt", "appended-entry-differs", "appended-entry-sig-rebuilt", "all-accepted-but-digest-wrong"]
     }
     fn phases(&self, tier: Tier) -> Vec<Phase<C02Case>> {
         let mut flips: Vec<(u8, u32)> = vec![];
@@ -359,6 +386,15 @@ impl Property for C02 {
                 gen: Arc::new(move |i| f2.get((i / 3) as usize).map(|(base, bit)| C02Case::BitFlip { base: *base, bit: *bit, fixup: i % 3 == 1, rebuild_sig: i % 3 == 2 })),
             },
             Phase::Random {
+                name: "appended-entries",
+                cases: tier.pick(6_000, 120_000),
+                strat: Arc::new(move || {
+                    (0..nb.max(1), prop_oneof![3 => proptest::sample::select(vec![tags::POSTIN, tags::PREIN, tags::VENDOR, tags::URL, tags::NAME, tags::PAYLOADCOMPRESSOR, 9999u32, 1u32 << 20]), 1 => any::<u32>()], proptest::collection::vec(any::<u8>(), 0..24), 0u8..3)
+                        .prop_map(|(base, tag, data, mode)| C02Case::Appended { base, tag, data, mode })
+                        .boxed()
+                }),
+            },
+            Phase::Random {
                 name: "multi-byte-edits",
                 cases: tier.pick(20_000, 400_000),
                 strat: Arc::new(move || {
@@ -379,6 +415,13 @@ impl Property for C02 {
                 let i = (*bit / 8) as usize % m.len();
                 m[i] ^= 1 << (bit % 8);
                 self.tampered(&mut o, orig, m, *key, *fixup, *rebuild_sig, "bitflip")
+            }
+            C02Case::Appended { base, tag, data, mode } => {
+                let (_, orig, key) = &self.bases[*base as usize % self.bases.len()];
+                match append_entry(orig, *tag, data) {
+                    Some(m) => self.tampered(&mut o, orig, m, *key, *mode == 1, *mode == 2, "appended-entry"),
+                    None => Ok(()),
+                }
             }
             C02Case::Mutated { base, muts, region, fixup, rebuild_sig } => {
                 let (_, orig, key) = &self.bases[*base as usize % self.bases.len()];
